@@ -26,7 +26,8 @@ def demo_cmd(demo, wt, template):
     if template:
         return template.format(wt=wt, demo=demo, out=os.path.dirname(demo))
     if demo.endswith('.py'):
-        return 'cd %s && PYTHONPATH=%s/python /venv/bin/python %s' % (wt, wt, demo)
+        # the worktree is passed as an argument: demonstrations that take one would otherwise look at their seeder's default tree
+        return 'cd %s && PYTHONPATH=%s/python /venv/bin/python %s %s' % (wt, wt, demo, wt)
     if demo.endswith('.cc') or demo.endswith('.cpp'):
         exe = os.path.join(tempfile.gettempdir(), 'seeded_demo_%d' % os.getpid())
         srcs = ' '.join(os.path.join(wt, 'src/point_one', x) for x in
@@ -61,7 +62,7 @@ def main():
         rc0, o0 = sh(dcmd)
         if rc0 != 0 and not a.demo_cmd and a.demo.endswith('.py'):
             # some demonstrations take the worktree path as their argument, or want to run from their own directory
-            for alt in ('cd %s && PYTHONPATH=%s/python /venv/bin/python %s %s' % (wt, wt, os.path.abspath(a.demo), wt),
+            for alt in ('cd %s && PYTHONPATH=%s/python /venv/bin/python %s' % (wt, wt, os.path.abspath(a.demo)),
                         'cd %s && PYTHONPATH=%s/python /venv/bin/python %s %s' % (os.path.dirname(os.path.abspath(a.demo)), wt,
                                                                                   os.path.abspath(a.demo), wt)):
                 rc0, o0 = sh(alt)
